@@ -78,7 +78,7 @@ var (
 		nil, nil, {"-v"}, {"-o", "KexAlgorithms=+diffie-hellman-group14-sha1"},
 		{"-4", "-o", "Ciphers=+aes128-cbc"}, {"-o", "LogLevel=ERROR"},
 	}
-	c14KHs   = []string{"match", "other", "empty", "none"}
+	c14KHs   = []string{"match", "other", "empty", "none", "revoked", "match-revoked"}
 	c14Auths = []string{"password", "key", "both"}
 )
 
@@ -563,7 +563,7 @@ func runC14Case(id string, c *c14Case) {
 	defer recoverCase(id, c)
 	cs := &Case{ID: id, Kind: c.Transport + "/" + map[bool]string{true: "strict", false: "nostrict"}[c.Strict] + "/" + c.KH + "/" + c.Auth,
 		HypOK: true, Replay: c}
-	cs.Nontrivial = c.Strict || c.KH == "other" || c.KH == "empty"
+	cs.Nontrivial = c.Strict || c.KH == "other" || c.KH == "empty" || strings.Contains(c.KH, "revoked")
 	defer emit(cs)
 	fail := func(msg string) {
 		cs.Obs = "harness-error"
@@ -616,6 +616,18 @@ func runC14Case(id string, c *c14Case) {
 	case "other":
 		s, _ := c14NewSigner()
 		khContent = knownhosts.Line([]string{khAddr}, s.PublicKey()) + "\n"
+	case "revoked", "match-revoked":
+		// the server's key is listed as revoked (alone, or next to an ordinary entry for the host): it
+		// matches nothing the file accepts
+		if srv != nil {
+			if c.KH == "match-revoked" {
+				khContent = knownhosts.Line([]string{khAddr}, srv.signer.PublicKey()) + "\n"
+			}
+			khContent += "@revoked * " + strings.TrimSpace(string(ssh.MarshalAuthorizedKey(srv.signer.PublicKey()))) + "\n"
+		} else {
+			s, _ := c14NewSigner()
+			khContent = "@revoked * " + strings.TrimSpace(string(ssh.MarshalAuthorizedKey(s.PublicKey()))) + "\n"
+		}
 	}
 	if c.KH != "none" {
 		if err := os.WriteFile(f.kh, []byte(khContent), 0o644); err != nil {
